@@ -103,7 +103,7 @@ def run(replay=None):
         cases += gap_cases()
     c.samples = vlib.sample_cases(cases, c.rng, 3)
     # (2) execute on the real code
-    groups = c.go_run(".", "TestVerifC03", cases, {"zz_verif_c03_test.go": "root/c03_test.go"})
+    groups = c.go_run(".", "TestVerifC03", cases, vlib.pkg_overlay(".", "root"))
     # (3) validate
     jobs = []
     for g, files in groups.items():
